@@ -71,7 +71,17 @@ func (prop) Generate(r *core.RNG, tier string) []json.RawMessage {
 	}
 	for i := 0; i < n; i++ {
 		mode := modes[i%len(modes)]
-		add(input{Kind: "prog", Mode: mode, Prog: generate(r.Fork(), mode)})
+		p := generate(r.Fork(), mode)
+		if i%10 == 9 { // the malformed stream: ill-typed programs
+			malform(r, p)
+			mode = "malformed"
+		}
+		add(input{Kind: "prog", Mode: mode, Prog: p})
+	}
+	if tier == "thorough" { // exhaustive small scope: two functions, three result tuples, eight body shapes each
+		for _, p := range enumSmall() {
+			add(input{Kind: "prog", Mode: "enum", Prog: p})
+		}
 	}
 	return out
 }
@@ -253,7 +263,7 @@ func firstLine(s string) string {
 }
 
 // oracle: the property's sentence for one call, decided on the Go side
-func oracle(o callObs) []string {
+func oracle(o callObs, illTyped bool) []string {
 	var v []string
 	switch o.Outcome {
 	case "panic":
@@ -281,7 +291,7 @@ func oracle(o callObs) []string {
 			v = append(v, fmt.Sprintf("%s: no alternative for result %d", o.Key, i))
 		}
 		for _, a := range l {
-			if !a.Const && !a.Assignable {
+			if !a.Const && !a.Assignable && !illTyped {
 				v = append(v, fmt.Sprintf("%s: alternative %q of result %d is neither a constant nor assignable to %s", o.Key, a.Txt, i, declAt(o, i)))
 			}
 		}
@@ -294,7 +304,7 @@ func oracle(o callObs) []string {
 
 // failureClass labels a failing case by the kind of failure, so that bin/check reports (and shrinks) one replay per
 // kind instead of only the first failing case.  "" for a passing case.
-func failureClass(calls []callObs) string {
+func failureClass(calls []callObs, illTyped bool) string {
 	rank := map[string]int{"": 0, "nondeterministic": 1, "unsound_alternative": 2, "wrong_shape": 3, "panics": 4, "diverges": 5}
 	best := ""
 	up := func(k string) {
@@ -317,7 +327,7 @@ func failureClass(calls []callObs) string {
 					up("wrong_shape")
 				}
 				for _, a := range l {
-					if !a.Const && !a.Assignable {
+					if !a.Const && !a.Assignable && !illTyped {
 						up("unsound_alternative")
 					}
 				}
@@ -427,17 +437,17 @@ func runProg(inp input, scratch string) core.Result {
 		if o.Outcome == "missing" {
 			res.GoViolations = append(res.GoViolations, fmt.Sprintf("harness: no outcome for %s (%s)", f.Name, o.Detail))
 		}
-		res.GoViolations = append(res.GoViolations, oracle(o)...)
+		res.GoViolations = append(res.GoViolations, oracle(o, p.Malformed)...)
 		ccs = append(ccs, fmt.Sprintf("mk_cc %s %s %s", entryCoq(c), rdeclsCoq(f.Res), obsCoq(o)))
 	}
 	failing := len(res.GoViolations) > 0
 	if failing {
 		obs.Source = files
-		res.Class = failureClass(sr.calls)
+		res.Class = failureClass(sr.calls, p.Malformed)
 	}
 	res.Observed = obs
 	prog := p.coqProg()
-	res.Coq = fmt.Sprintf("mk_case %s %s\n  %s\n  [%s]", core.CoqBool(true), p.otysCoq(), prog, strings.Join(ccs, ";\n   "))
+	res.Coq = fmt.Sprintf("mk_case %s %s\n  %s\n  [%s]", core.CoqBool(!p.Malformed), p.otysCoq(), prog, strings.Join(ccs, ";\n   "))
 	res.Tags, res.Nontrivial = tagsOf(p, inp.Mode)
 	return res
 }
